@@ -21,7 +21,6 @@ from __future__ import annotations
 import ast
 
 from engine.common import AnalysisError
-from engine.defs import check_digests
 from engine.layout import Tables, process_run, RULETYPES_MOD
 from engine.srcindex import Sym
 from .shared import models
@@ -31,39 +30,30 @@ CLOSE = ('CloseBlock',)
 NEWLINES = ('Newline', 'OptionalNewline')
 SPACES = ('Space', 'RequiredSpace', 'OptionalSpace')
 
-EXPECTED_WALKER = {
-    'walker.walk': 'd59d5e2e0a353111',
-    'walker.Dispatcher.optimize_definition': 'b7a475001be63fb8',
-    'walker.Dispatcher.layout': '873a3cfebd2b26f0',
-}
-EXPECTED_RULETYPES = {
-    'ruletypes.Attr': '807e7c2d6a003478',
-    'ruletypes.Text': 'be0b9e6ec6ab2d3e',
-    'ruletypes.JoinAttr': 'd566075d6a03fc70',
-    'ruletypes.ElisionToken': '8de4e33bfbcca0a1',
-    'ruletypes.ElisionJoinAttr': '1c260385606c193a',
-    'ruletypes.Optional': '4a0795ba5f3f8067',
-    'ruletypes.Operator': '64573301f1f92ed1',
-    'ruletypes.Declare': '80ce4aadc368d144',
-    'ruletypes.Resolve': '0823ec087982c3fc',
-    'ruletypes.Literal': 'c81a3312a306bf6e',
-    'ruletypes.Iter': '336afe56fa3f8111',
-    'ruletypes.CommentsAttr': 'e51a17a7712ebea3',
-    'ruletypes.Comment': '335ecb0dc68a3d24',
-    'ruletypes.is_empty': 'b238dd9d3fdc735b',
-}
 
 
-def guard_transcriptions(index, M):
-    """the semantics of walker.walk/process_layouts and of the ruletypes
-    token classes is transcribed in /verif/engine: refuse to give a verdict
-    if those functions changed structurally"""
+def guard_transcriptions(index, M, report=None, rid=None, depth=3,
+                         strict=True):
+    """the flattening performed by walker.walk / Dispatcher is assumed by
+    the printer model of /verif/engine.  It is no longer guarded by a
+    digest: walk is evaluated from its source on a table of abstract
+    scenarios and compared with the model (checks/walkerdiff.py).  With
+    `rid` a deviating token sequence is a failure of that rule; any other
+    deviation stops the check as a stale model."""
     T = Tables(index)
-    check_digests(T.digests(), EXPECTED_WALKER,
-                  'walker functions (unparsers/walker.py)')
-    check_digests(M.definitions.rc.digests(), EXPECTED_RULETYPES,
-                  'rule classes (ruletypes.py)')
+    from .walkerdiff import walker_rule
+    if report is not None:
+        walker_rule(report, index, rid, depth, strict)
     return T
+
+
+def guard_tokens(report, index, M, rid=None):
+    """the Token classes are no longer digest-guarded: they are evaluated
+    from their source (checks/tokens.py).  With `rid` deviations are
+    reported as failures of that rule (C01, C02); without, a deviation
+    stops the check as a stale printer model"""
+    from .tokens import token_rule
+    return token_rule(report, index, M, rid, violation=rid is not None)
 
 
 def level_effect(T, handler):
@@ -100,7 +90,8 @@ def seq_delta(seq, effects):
 def run(report, index, tier):
     M = models(index)
     D, A, am = M.definitions, M.actions, M.astmodel
-    T = guard_transcriptions(index, M)
+    T = guard_transcriptions(index, M, report)
+    guard_tokens(report, index, M)
     table = T.table('indent', indent_str='  ')['layout_handlers']
     K = lambda n: Sym(RULETYPES_MOD, n)   # noqa: E731
     report.explanation = (
